@@ -22,8 +22,8 @@
     * finding_C02_F2 — the unambiguous heap search as it is yields 10 of the 14 programs of a
       three-start grammar, and (C02_HS_fix_F2_witness) all 14 after the proposed fix;
     * finding_C02_F3 — heap search on a state-threading TTCFG never yields a member;
-    * finding_C02_HS_reentrant — on a recursive grammar (`CFG.infinite`) heap search stops after 5
-      programs and never yields a member (re-entrant `query`).
+    * finding_C02_HS_recursive — on a recursive grammar (`CFG.infinite`) heap search stops after 5
+      programs and never yields a member (`_reevaluate_` leaves the max-priority tables out of sync).
   NOT proved: completeness and termination (DESIGN B.2 induction on the rank), no-duplicates with a
   filter, and everything about the unambiguous-grammar machine (UHeapSearch); they are checked on
   every generated case against the independent language oracle and by exact correspondence of the
@@ -228,7 +228,7 @@ example : ∀ g' out b, take E3 200 40 (Gen.new w3G) [] = some (g', out, b) → 
   fun g' out b h => C02_HS_nodup E3 (fun _ => rfl) 200 40 g' out b h
 end Nodup
 
-/-! ### finding: heap search stops early on a recursive grammar (re-entrant `query`) -/
+/-! ### finding: heap search stops early on a recursive grammar (max-priority tables out of sync) -/
 section Reentrant
 open PS.HS
 def rInt : Ty := .base "t"
@@ -247,10 +247,12 @@ def rE2 : Env Nat Unit Rat := { G := rG2, W := rW2, ops := probOps 0, filter := 
 def rLost : Prog := .node rF [.node rg [.node rF [.node rc [], .node rc []]], .node rc []]
 
 /-- the language is infinite, heap search stops after 5 programs and never yields the member
-    `(F (g (F c c)) c)`: `query(S3, (F c c))` is issued while `__add_successors__((F c c), S3)` is
-    still running, finds the heap of `S3` empty and records "no successor".  Same output on the
-    implementation. -/
-theorem finding_C02_HS_reentrant :
+    `(F (g (F c c)) c)`: `_reevaluate_` leaves `max_priority[(S1, g)] = (g b)` although
+    `max_priority[S3]` became `(F c c)` (the tables are out of sync on a recursive grammar), so the
+    initial program `(g b)` of `S1` makes `__add_successors__` call `query(S3, b)` before `b` was
+    generated from `S3` ((I5) fails at initialisation) and `(g (F c c))` is never pushed.
+    Same output on the implementation. -/
+theorem finding_C02_HS_recursive :
     contains rG2 rLost = true ∧
     (take rE2 300 8 (Gen.new rG2) []).map (fun r => (r.2.1.length, r.2.2, r.2.1.contains rLost)) = some (5, true, false) := by
   decide +kernel
